@@ -1,23 +1,28 @@
 """C11 — merging images by offset: pewlib.process.register.overlap_arrays / overlap_structured_arrays
-against PewModel/Overlap.lean (mechanism `mech`, specification `spec`).
+against PewModel/Overlap.lean.
 
-Three legs per case:
-* the implementation against the Lean specification and the Lean mechanism (driver ops c11.overlap / c11.structuredD);
-  structured cases carry a dtype per field (float64 by default; float32 / int64 and the same name with two dtypes in a
-  part of the cases): the model returns the exception class or the cast pixels (`overlapStructuredD`);
-  value classes (whole images of 0 / -0.0 / one constant / the fill value, zeros with NaNs, values that cancel, the
-  negative of an earlier image on the same footprint, values needing more than 24 mantissa bits), geometry classes
-  (stack of frames on one footprint, abutting tiles of a mosaic with and without gaps, images nested in one another,
-  larger images, longer lists), the same ndarray object at several places of the list, and a second call on the same
-  objects are generated beside the uniformly random images;
-* "inputs are left unmodified": a snapshot of every input array (and of the buffer a non-contiguous view lives in, and of
-  the offsets container) taken before the call and compared after it; inputs are C-contiguous, read-only, strided views
-  into a larger buffer, Fortran-ordered or reversed views.  This clause is backed by the snapshot only (no theorem: the
-  Lean model is functional);
-* a metamorphic leg, implementation against implementation (case key "meta"; every case of <= 4 inputs in the thorough
-  tier, a quarter of them in the quick tier): the same call with a common translation added to every offset
-  (theorem overlap_translation_invariant), with every permutation of the (array, offset) pairs for mean / sum (theorem
-  overlap_perm_invariant), and for replace the last-writer relation of theorem overlap_replace_last_writer."""
+Legs per case:
+* the implementation against the Lean specification and the Lean mechanism.  Plain cases: driver op c11.overlapD, the
+  dtype-aware model `overlapD` over extended values (NaN, +inf, -inf, exact finite numbers): every image carries a dtype
+  (float64 by default; float32, integer dtypes of several widths, bool, in any order in one list), the canvas has the
+  dtype of the first image and casts every write; a pixel is judged where the hypothesis of theorem pixel_specD holds
+  (`hyp`) and the demanded value is representable in the canvas dtype, the other pixels are compared with the model and a
+  difference is recorded only.  Structured cases: op c11.structuredD (a dtype per field; exception class or cast pixels);
+* "inputs are left unmodified": a byte-level picture of EVERY argument object (the container of the images — list or
+  tuple, with the identity of its elements —, every image and the buffer a view lives in, the offsets object — list /
+  tuple of tuples, lists, 1-d arrays, NumPy scalars, or ONE 2-d integer table of several dtypes and layouts —, the fill
+  and mode objects) taken before each call and compared after it, whether it returns or raises; results handed out
+  earlier are compared after later calls; writing into a result must not reach an input.  Backed by the pictures only
+  (the Lean model is functional);
+* histories: a second call on the same objects; the caller edits pixel (field) values in place between calls and merges
+  again with another mode / fill (each call judged against the Lean specification of the values of that moment); the
+  result of a merge (fill NaN) handed in as the first image of a second merge with further images (theorem tiling);
+* translation and reordering (case key "meta"; every case of <= 4 inputs in the thorough tier, a quarter of them in the
+  quick tier): plain — the translated call and every permutation that keeps the first image's dtype (mean / sum)
+  against the Lean specification of the ORIGINAL call (theorems overlapD_translation_invariant, overlapD_perm_invariant),
+  replace: the last-writer relation of theorem overlap_replace_last_writer; structured — the translated call and EVERY
+  order of the inputs, each judged per field against the Lean specification of that call (theorems
+  structured_translation_invariant / structured_perm_invariant say these specifications agree)."""
 import itertools
 import math
 import sys
@@ -32,6 +37,15 @@ from harness.core import Prop, outcome, orat, unrat
 # whether "the same field name with two dtypes" is treated as inside the property's quantifier (then the ValueError is a
 # violation of "does the same per field over the union of the inputs' field names"); the maintainer decides, see notes/D12.md
 DTYPE_CLASH_IN_SCOPE = False
+
+# Two places where pewlib leaves the letter of "each pixel holds the mean / sum of the non-NaN values" (notes/EC11.md); the
+# maintainer decides whether they are inside the property.  False: such a pixel is compared with the model and a difference is
+# recorded only.  True: the pixel is judged against the specification (the check then reports pewlib as it is).
+#  * +inf and -inf contributed to one pixel (IEEE sum NaN; pewlib: depends on the order, theorem inf_cancel_order_dependent)
+INF_CANCEL_IN_SCOPE = False
+#  * sum mode on an integer / boolean first image with fractional (negative) later values: the canvas truncates after every
+#    image, so 0.5 + 0.5 gives 0 although the sum 1 is representable
+LOSSY_INT_SUM_IN_SCOPE = False
 
 
 def fhex(v) -> str:
@@ -54,7 +68,7 @@ def val(x):
     return None if x is None else float(Fraction(x[0], x[1]))
 
 
-LAYOUTS = ["c", "ro", "strided", "f", "rev"]
+LAYOUTS = ["c", "ro", "strided", "f", "rev", "swapped"]
 NPDT = {"f8": np.float64, "f4": np.float32, "i8": np.int64}
 
 
@@ -76,6 +90,9 @@ def lay_out(arr, layout):
     if layout == "rev":  # a view with a negative stride on the first axis
         base = arr[::-1].copy()
         return base[::-1], base
+    if layout == "swapped" and arr.dtype.names is None and arr.dtype.itemsize > 1:  # the other byte order (plain images)
+        arr = arr.astype(arr.dtype.newbyteorder())
+        return arr, arr
     return arr, arr
 
 
@@ -489,34 +506,58 @@ class C11(Prop):
     anchored = ["src/pewlib/process/register.py"]
     cases = {"quick": 600, "thorough": 12000}
     rule = ("random lists of 1..6 arrays (1-3 D, sides 1..4, offsets -5..5, dyadic values k/4, NaNs incl. whole arrays), "
-            "fills NaN/0/finite, three modes, plain and structured; in 40 % of the cases every image (field) is drawn from the "
-            "value classes all 0 / all -0.0 / one constant / the fill value / zeros with NaNs / values that cancel / the "
+            "fills NaN/0/finite (3 %: -0.0), three modes, plain and structured; in 40 % of the cases every image (field) is drawn "
+            "from the value classes all 0 / all -0.0 / one constant / the fill value / zeros with NaNs / values that cancel / the "
             "negative of an earlier image on its footprint / its complement to the fill / values of more than 24 mantissa "
             "bits; geometry classes in 40 % of the cases: stack of frames on one footprint, abutting tiles with and without "
-            "gaps, images nested in one, images with sides up to 65 (1-D up to 4097, pixel counts around the powers of two), "
-            "lists of 7..40 images; the same ndarray object at two or three places of the list (12 %); a second call on the "
-            "same objects (30 %); inputs C-contiguous, read-only, strided views, Fortran "
-            "order, reversed views; offsets as tuples / lists / int64 arrays; structured: float64 fields, and in a fifth of "
-            "the cases float32 / int64 fields, in a tenth the same name with two dtypes; metamorphic leg (translation, all "
-            "permutations of <= 4 inputs for mean/sum, last writer for replace) on every case of <= 4 inputs in the "
-            "thorough tier and a quarter of them in the quick tier; non-trivial = some pixel receives >=2 contributions, "
-            "or a NaN-only covered pixel, or an uncovered pixel, or a pixel whose contributions are all zero / cancel / give "
-            "the fill value, or two abutting images; distinct by canonical case hash")
+            "gaps, images nested in one, images with sides up to 65 (1-D up to 4097, pixel counts around the powers of two; "
+            "plain: a few with more than 2^16 pixels), lists of 7..40 images and (1.5 %) 300..600 images on one footprint; "
+            "plain cases: 30 % with image dtypes (first image float64 / float32 / int64 / int32 / uint16 / uint8 / bool, the "
+            "others any of these plus int16, half of them with whole numbers in the float images), 10 % with +inf / -inf in the "
+            "float images (one sign, or both), 5 % with a zero-length axis, 15 % with a history (1-3 further calls after in-place "
+            "edits of 1-4 pixels, other mode / fill in a third), 10 % of the rest with the result fed into a second merge, 4 % of the "
+            "free placements in 4 or 5 dimensions (recorded only); the same ndarray object at two or three places of the list "
+            "(12 %); a second call on the same objects (30 %); memory layouts C, read-only, strided view, Fortran order, "
+            "reversed view, other byte order; argument types: the offsets object is something other than a list of tuples in "
+            "half of the cases (15 kinds: lists, tuples, 1-d arrays int64 / int32 / read-only, NumPy scalars, one 2-d table "
+            "int64 / int32 / int16 / uint8 / read-only / Fortran / strided view), the images in a tuple (20 %), the fill as int / "
+            "float64 / float32 / 0-d array (30 %), the mode as np.str_ (10 %); common translations to +-1000 and around "
+            "+-2^53..2^57, +-2^63, 2^64, 2^70 (beyond int64: recorded only); structured: float64 fields, in a fifth of the "
+            "cases float32 / int64 fields, in a tenth the same name with two dtypes, 12 % with a history of in-place field edits; "
+            "translation / reordering legs on every case of <= 4 inputs in the thorough tier and a quarter of them in the quick "
+            "tier; non-trivial = some pixel receives >=2 contributions, or a NaN-only covered pixel, or an uncovered pixel, or a "
+            "pixel whose contributions are all zero / cancel / give the fill value, or two abutting images; distinct by canonical "
+            "case hash")
     trusted = ["np.nansum/np.full/boolean-mask assignment as documented; float sums of the generated dyadic values are exact "
-               "(evaluate checks that the absolute values of a case sum to less than 2^53 quarters, 2^24 where a float32 field "
-               "is involved, and counts the case as undetermined otherwise), "
-               "the mean's single division is correctly rounded (compared with float(Fraction)); float32 fields: the division is "
-               "done in float64 and rounded once more to float32 (canonicaliser: float32(float64(q)))",
-               "'inputs are left unmodified' is backed by the harness snapshot only (bytes of every input and of the buffer "
-               "behind a view before and after the call); the Lean model is functional and has no theorem about it"]
+               "(evaluate checks for every call of a history that the absolute values sum to less than 2^53 quarters, 2^24 "
+               "where a float32 image, canvas or field is involved, that every value is representable in the dtype of its image "
+               "and that no partial sum can leave the range of an integer canvas; the case is undetermined otherwise), "
+               "the mean's single division is correctly rounded (compared with float(Fraction)); float32 canvases / fields: the "
+               "division is done in float64 and rounded once more to float32 (canonicaliser: float32(float64(q)), following the "
+               "floating-point dtype the implementation returned)",
+               "all integer dtypes are one class in the Lean model (i8): a narrower or unsigned dtype is used only where every "
+               "value and partial sum lies in its range, where NumPy's casts agree with int64's",
+               "'inputs are left unmodified' is backed by the harness pictures only (bytes, dtype, shape, strides, flags of every "
+               "argument object and of the buffer behind a view, identity of the list elements, before and after each call); the "
+               "Lean model is functional and has no theorem about it"]
     assumptions = ["structured inputs in which one field name carries two dtypes make overlap_structured_arrays raise ValueError "
                    "(np.empty on a dtype with a repeated name); the property text does not speak of dtypes, such a case is "
                    "compared with the model's error result and counted as hypothesis-excluded for the specification "
                    "(DTYPE_CLASH_IN_SCOPE = False; see notes/D12.md)",
-                   "integer fields: a NaN cast to int64 is platform dependent (NumPy warns); such pixels are marked undefined by "
-                   "the model and not compared; integer canvases raise in mean mode and with a NaN fill in mean/sum mode "
-                   "(model: TypeError / ValueError): which exception is raised is an accident of the NumPy calls used, such a "
-                   "case is counted as undetermined and not compared"]
+                   "integer fields / canvases: NaN or an infinity cast to an integer is platform dependent (NumPy warns); such "
+                   "pixels are marked undefined by the model and not compared (a plain case with an integer first image and an "
+                   "infinite value is not judged at all); integer canvases raise in mean mode and with a NaN / infinite fill in "
+                   "mean/sum mode, boolean canvases in mean mode (model: TypeError / ValueError / OverflowError): which exception "
+                   "is raised, and whether any, is an accident of the NumPy calls used, such a case is undetermined and not compared",
+                   "recorded only (compared with the model, a difference sets a feature, never a verdict): pixels where +inf and "
+                   "-inf meet in mean / sum mode (INF_CANCEL_IN_SCOPE = False: pewlib's result depends on the order there, theorem "
+                   "inf_cancel_order_dependent); sum mode on an integer / boolean canvas with a non-integer / negative contribution "
+                   "(LOSSY_INT_SUM_IN_SCOPE = False: the canvas truncates after every image); pixels whose demanded value the canvas "
+                   "dtype cannot hold (2.5 or NaN in an integer canvas); more than 3 dimensions, offsets beyond int64, an image "
+                   "without pixels whose offset changes the bounding box, an infinite fill (outside the quantifier or a choice the "
+                   "text leaves open)",
+                   "a result that shares memory with an input, or an input list whose element has been replaced by an equal copy, "
+                   "counts as a modified input (the caller's next write / read goes elsewhere)"]
 
     def gen_array(self, rng, ndim, allnan=False, place=None, vclass="rand", fill=None, prev=None):
         off, shape = place if place else ([rng.randint(-5, 5) for _ in range(ndim)], [rng.randint(1, 4) for _ in range(ndim)])
@@ -564,6 +605,8 @@ class C11(Prop):
                 else:
                     shape = [rng.choice([rng.randint(5, 40), rng.randint(1, 40), rng.choice([8, 16, 32, 64]) + rng.randint(-1, 1)])
                              for _ in range(ndim)]
+                    if rng.random() < 0.06 and not getattr(self, "_structured", False):  # more than 2^16 pixels (plain images)
+                        shape = [rng.randint(257, 300) for _ in range(ndim)]
                 out.append(([rng.randint(-20, 20) for _ in range(ndim)], shape))
             return out
         return [(roff(), rshape()) for _ in range(n)]
@@ -574,6 +617,7 @@ class C11(Prop):
         mode = rng.choice(["replace", "mean", "sum"])
         fill = rng.choice([None, None, 0, 40, -7, 1])  # quarters: 10.0, -1.75, 0.25
         structured = rng.random() < 0.25
+        self._structured = structured
         r = rng.random()
         geom = ("free" if r < 0.60 else "stack" if r < 0.68 else "tiles" if r < 0.80 else "nested" if r < 0.86
                 else "big" if r < 0.95 else "long")
@@ -587,6 +631,8 @@ class C11(Prop):
             ndim, n = rng.choice([4, 5]), min(n, 3)
         special = rng.random() < 0.4  # images drawn from the value classes
         places = self.places(rng, geom, ndim, n)
+        if ndim > 3:  # keep the box of a 4-d / 5-d case small
+            places = [([rng.randint(-1, 1) for _ in range(ndim)], [rng.randint(1, 2) for _ in range(ndim)]) for _ in range(n)]
         case = {"kind": "structured" if structured else "plain", "ndim": ndim, "mode": mode, "fill": fill}
         if structured:
             names = ["A", "B", "C"]
@@ -638,7 +684,8 @@ class C11(Prop):
                 a["fields"] = fs
                 arrs.append(a)
             case["arrays"] = arrs
-            if len(arrs) <= 40 and rng.random() < 0.12:  # the caller edits field values in place and merges again
+            if len(arrs) <= 40 and all(int(np.prod(a["shape"])) <= 1024 for a in arrs) and rng.random() < 0.12:
+                # the caller edits field values in place and merges again
                 then = []
                 for _ in range(rng.choice([1, 1, 2])):
                     edits = []
@@ -1007,7 +1054,8 @@ class C11(Prop):
         exact = [ptok(v, rdt) for v in rep["exact"]]
         infinite = any(isinstance(v, str) for a in descs for v in a["data"]) or isinstance(fillq, str) and "inf" in fillq
         whole = rep["dtype"] != "i8" or not infinite  # arithmetic on an undefined integer pixel is not modelled
-        judged = [whole and h and sp == ex and sp != "undef" for h, sp, ex in zip(rep["hyp"], spec, exact)]
+        lenient = INF_CANCEL_IN_SCOPE if rep["dtype"] in ("f8", "f4") else LOSSY_INT_SUM_IN_SCOPE
+        judged = [whole and (h or lenient) and sp == ex and sp != "undef" for h, sp, ex in zip(rep["hyp"], spec, exact)]
         if not all(rep["hyp"]):
             feats.add("hyp:inf-meets-neg-inf(recorded only)" if rep["dtype"] in ("f8", "f4") else
                       "hyp:lossy-sum-in-" + rep["dtype"] + "-canvas(recorded only)")
@@ -1513,7 +1561,10 @@ class C11(Prop):
             if not self.outside(moved):
                 meta_i["translation"] = judged_ok(moved)
                 feats.add("meta:translation")
-            if len(case["arrays"]) <= 4:
+            cells = len(names)
+            for l, h in zip(lo, hi):
+                cells *= h - l
+            if len(case["arrays"]) <= 4 and cells <= 30000:
                 meta_i["permutations"] = all(judged_ok({**base, "arrays": list(p)}) for p in itertools.permutations(case["arrays"]))
                 feats.add("meta:permutations")
             meta_s = {k: True for k in meta_i}
